@@ -131,6 +131,20 @@ CHECKS = {
              "types and 4 chrono durations; 8 probes using ZERO where a QuantityPoint is required must be rejected (4 quantity twins compile).",
         note="The specification part is small (sign/NaN classification); the strength is the exhaustive sweep.  ZERO - q at the most negative 32/64-bit value is raw UB and excluded.",
         technique="contract sweep against 'stored value op 0' with records validated by TLC + failing probes with twins", ref="6/C19"),
+    "C20": dict(
+        text="SingleFile.tla models make-single-file (parse_files worklist, the pass structure of sort_topologically, emission) over every "
+             "acyclic include graph on N files and every selection order; TLC proves closure / each-file-once / includes-first / no stall.  Every "
+             "TLC-emitted graph and selection is materialised as a header tree and run through the REAL parse_files, sort_topologically and "
+             "print_unified_file (imported from tools/bin/make-single-file); TLC judges every run and the unified texts are compiled.  Random "
+             "selections of the real unit and constant headers x {io, noio} go through the real tool: TLC judges closure/order on the real "
+             "include graph; each generated file is compiled with nothing else of Au reachable (alone, twice, two TUs linked) and an "
+             "API-surface program per rep class (11, incl. sub-int) must print the same against it and against the header tree; the tree build "
+             "runs in all six configurations with identical verdict and output; every public header alone and twice; every *_fwd.hh before its "
+             "definition with declared names completed; operator/constructor probes over 13x13 rep pairs compiled in all six configurations must "
+             "be accepted or rejected alike (Trace_Packaging.tla judges every record).",
+        note="Equivalence across packaging/standard/compiler is differential: the specification states the equivalence and the tool's algorithm, "
+             "the compilers decide each build.  libm results are compared to 10 digits.",
+        technique="TLA+ model of make-single-file checked by TLC, TLC-generated include graphs replayed through the real tool functions and validated by TLC + differential builds (single file vs tree, 6 configurations) judged by TLC", ref="6/C20"),
     "C09": dict(
         text="PointBig.tla states the affine semantics with exact BigInt rationals: Position = value x scale + origin.  Scale and origin of "
              "Kelvins/Celsius/Fahrenheit, prefixed forms and seeded generated point units are read out of the compiled types; TLC emits for "
